@@ -10,6 +10,7 @@
 //	go f(x)            → simhook.Go(func() { f(x) })     linter/…, snippet/…, interpreter/… (none there today)
 //	eg.Go(f)           → eg.Go(simhook.WrapErr(f))       snippet/… (errgroup)
 //	first statement simhook.Yield("<func>")              fixed list of functions
+//	for … { body }     → for … { simhook.Loop(); body }   lexer/…, parser/…, ast/…, snippet/…
 //	range m (m a map)  → range simmap.Sorted(m)          linter/…, linter/context, snippet/…  (typed)
 package main
 
@@ -37,11 +38,15 @@ type logT struct {
 	ImportSwaps map[string]int `json:"import_swaps"`
 	Yields      []string       `json:"yields_inserted"`
 	GoStmts     int            `json:"go_statements_wrapped"`
+	LoopYields  int            `json:"loop_preemption_points"`
 	ErrgroupGo  int            `json:"errgroup_go_wrapped"`
 	MapRanges   []string       `json:"map_ranges_wrapped"`
 	MapsCalls   []string       `json:"maps_calls_wrapped"`
 	Skipped     []string       `json:"skipped,omitempty"`
 }
+
+// packages whose loop bodies get a preemption point
+var loopRoots = map[string]bool{"lexer": true, "parser": true, "ast": true, "snippet": true}
 
 var doneGo = map[*ast.GoStmt]bool{}
 var doneEg = map[*ast.CallExpr]bool{}
@@ -76,7 +81,7 @@ func main() {
 		}
 	}
 
-	roots := []string{"interpreter", "linter", "snippet"}
+	roots := []string{"interpreter", "linter", "snippet", "lexer", "parser", "ast"}
 	for _, root := range roots {
 		filepath.Walk(filepath.Join(*repo, root), func(p string, info os.FileInfo, err error) error {
 			if err != nil || info.IsDir() || !strings.HasSuffix(p, ".go") || strings.HasSuffix(p, "_test.go") {
@@ -198,6 +203,24 @@ func main() {
 						}
 					}
 					return list
+				})
+			}
+			// loop preemption points
+			if loopRoots[top] {
+				ast.Inspect(f, func(n ast.Node) bool {
+					var body *ast.BlockStmt
+					switch t := n.(type) {
+					case *ast.ForStmt:
+						body = t.Body
+					case *ast.RangeStmt:
+						body = t.Body
+					}
+					if body != nil {
+						body.List = append([]ast.Stmt{&ast.ExprStmt{X: &ast.CallExpr{Fun: &ast.SelectorExpr{X: ast.NewIdent("simhook"), Sel: ast.NewIdent("Loop")}}}}, body.List...)
+						lg.LoopYields++
+						needHook, changed = true, true
+					}
+					return true
 				})
 			}
 			if sites := mapSites[p]; len(sites) > 0 {
